@@ -3,6 +3,18 @@ def classify_crash(cr):
     sawtoothInterpolation on an empty point set (the only call made in that case)."""
     if cr.get('case') == 12:
         return ('sawtoothInterpolation', 'crash_no_helpful_point')
+    # the harness prints '#in prune S n <vectors>' before it calls Pruner: a hang/abort right after it is Pruner's
+    # (i.e. its witness LP's); the magnitude class of the input is part of the clause name, as in the driver
+    for ln in cr.get('context') or []:
+        t = ln.split()
+        if len(t) > 4 and t[1] == 'prune':
+            big = False
+            for tok in t[4:]:
+                try:
+                    m, e = tok.split('p'); big = big or abs(int(m)) * 2.0 ** int(e) >= 1e6
+                except ValueError:
+                    pass
+            return ('WitnessLP', cr['kind'] + ('_at_magnitude_above_1e6' if big else ''))
     return ('C12', cr['kind'])
 
 
